@@ -483,7 +483,14 @@ pub mod verif {
         pub const PENDING_TIMEOUT: Duration = super::PENDING_TIMEOUT;
 
         pub fn new(self_peer_id: PeerId) -> (Self, mpsc::Receiver<NetworkEvent>) {
-            let (tx, rx) = mpsc::channel(10_000);
+            Self::with_event_capacity(self_peer_id, 10_000)
+        }
+        /// A fetcher whose event channel holds `capacity` events (to observe it under back-pressure).
+        pub fn with_event_capacity(
+            self_peer_id: PeerId,
+            capacity: usize,
+        ) -> (Self, mpsc::Receiver<NetworkEvent>) {
+            let (tx, rx) = mpsc::channel(capacity);
             (Self(ReplicationFetcher::new(self_peer_id, tx)), rx)
         }
         pub fn set_replication_distance_range(&mut self, distance_range: U256) {
